@@ -40,6 +40,17 @@ CLAIMED = {
              'Expiry is an arbitrary environment deletion here; its timing is C14. No axioms.',
         technique='Coq invariant proofs by induction over event histories (occurrence-count invariant, ghost ids) + modular arithmetic; trace correspondence against the real ESME',
         design='6 (C13)'),
+    'C17': dict(
+        text='Coq theorems (Props/C17.v) over an executable model of datetime_to_smpp_time / smpp_time_to_datetime (incl. Python int() parsing, '
+             'datetime validity, timedelta normalisation): for every civil time 2000-2099 with valid fields, any microsecond and any UTC offset of '
+             '15*k minutes, -48<=k<=48, or naive, the wire string is YYMMDDhhmmsstnnp with nn=|k| and p its sign and parses back to the same fields '
+             'at 0.1 s resolution with the same offset; every whole-second duration up to 63 weeks prints as YYMMDDhhmmss000R and parses back '
+             'exactly; anything beyond 63 weeks is ValueError. Model tied to protocol.py by differential runs over boundary sweeps, random values '
+             'and a malformed-string stream (exception class compared).',
+        note='Trusted: Coq kernel + vm_compute sweeps, CPython datetime/strftime/int() semantics as modelled (sampled by the differential run), harness. '
+             'Proved for the code after fix ff64406 (the pinned code failed the absolute part). No axioms.',
+        technique='Coq proof (digit printing/parsing lemmas by finite sweep, lia with Euclidean division); differential correspondence',
+        design='6 (C17)'),
 }
 
 PENDING_REASON = 'check not built yet in this round (planned, see DESIGN.md section 6); not claimed until its proof and correspondence run exist'
